@@ -1,4 +1,4 @@
-import Iauthd.Conf.ProofsBridge
+import Iauthd.Conf.ProofsBridge2
 import Iauthd.Conf.ProofsTyped
 import Iauthd.Conf.Counterexamples
 import Iauthd.Conf.Judge
@@ -17,25 +17,33 @@ import Iauthd.Conf.Judge
   Proved (kernel-checked, all documents, no size bound):
     * `string_roundtrip`, `scan_roundtrip`: every escape choice decodes to the byte,
       both passes of `conf_parse_string` agree; `parseString_at`: bare and quoted strings
-      at any position after any gap; `gapAny_ok`/`gapFlat_ok`: every gap is skipped;
+      at any position after any gap; `gapAny_ok`/`gapFlat_ok`/`gapAny_care`: every gap of
+      the alphabet is skipped (with `care_eof`: up to its first newline);
     * `pfold_canonTree`: the tree the parser accumulates is `canonTree`;
-    * `C16_partial`: `parseFile V (render doc layout)` = canonical tree for the layout
-      family "every entry terminated by `;`, a newline or both; lists parenthesised"
-      (`entsOk`) — for the pinned and for the repaired parser;
+    * `C16_full`: for the repaired parser (F10, F11, F12: `FixedParser V`) and EVERY
+      layout — any string form, any gap, `;` / newline / both / no terminator before `}`
+      and at end of input, lists in parentheses or comma form —
+      `parseFile V (render doc layout)` is the canonical tree of `doc`;
+    * `C16_partial`: the same for the layout family "every entry terminated, lists
+      parenthesised" for EVERY variant, i.e. also for the pinned parser (what the pinned
+      parser gets wrong lies outside this family: `Cex.f10_…`, `f11_…`, `f12_…`);
     * `typed_spec` (`boolean_spec`, `integer_spec`, `interval_spec`, `volume_spec`):
       the typed parsers deliver exactly what the property's reading prescribes and reject
       what it says must be rejected; `typed_reject`/`typed_accept`: a rejected text
       leaves the value in force, an accepted one replaces it.
 
-  Not proved (exact carve-out): layouts with a missing terminator before `}` / at end of
-  input and comma-form lists (where F10–F12 live).  For those the repaired parser's
-  behaviour is pinned down by `decide`-checked instances (Counterexamples.lean) and by the
-  exhaustive-window and random layout runs of the check.
+  Hypothesis: the document's strings are NUL-free (`EntsNN`); the configuration file is a
+  C string.
 -/
 namespace Iauthd.Properties
 open Iauthd Iauthd.Conf
 
-theorem C16 (V : Variant) (doc : Spec.Doc) (lay : Spec.Layout)
+theorem C16 (doc : Spec.Doc) (lay : Spec.Layout) (hnn : EntsNN doc) :
+    ∃ t, parseFile Variant.fixed (Spec.render doc lay) = .ok t ∧ t.map toC = Spec.canonTree doc :=
+  C16_full Variant.fixed fixed_parser doc lay hnn
+
+/-- the part that does not depend on the repairs -/
+theorem C16_any_variant (V : Variant) (doc : Spec.Doc) (lay : Spec.Layout)
     (hfam : entsOk doc lay.entries = true) (hnn : EntsNN doc) :
     ∃ t, parseFile V (Spec.render doc lay) = .ok t ∧ t.map toC = Spec.canonTree doc :=
   C16_partial V doc lay hfam hnn
@@ -54,6 +62,16 @@ example :
        (5, ⟨true, []⟩, 3, .pair ⟨true, []⟩ 0 ⟨false, []⟩, 1, .semi),
        (0, ⟨true, []⟩, 0, .obj 2 [(1, ⟨true, []⟩, 1, .str ⟨true, []⟩, 0, .semi)] 9, 0, .nl),
        (0, ⟨true, []⟩, 1, .str ⟨true, []⟩, 0, .semi)] = true := by decide +kernel
+
+/-- … and a layout outside that family: a comma list without terminator before `}` and a
+    last entry without terminator at the end of the input (the text is `a{b c,d};e f`) -/
+example :
+    Spec.render [(Cex.s "a", .obj [(Cex.s "b", .list [Cex.s "c", Cex.s "d"])]), (Cex.s "e", .str (Cex.s "f"))]
+      ⟨[(0, ⟨true, []⟩, 0, .obj 0 [(0, ⟨true, []⟩, 1, .list false 0 [] 0, 0, .none)] 0, 0, .none),
+        (0, ⟨true, []⟩, 1, .str ⟨true, []⟩, 0, .none)], 0⟩ = Cex.s "a{b c,d};e f" ∧
+    (match parseFile .fixed (Cex.s "a{b c,d};e f") with | .ok t => t.map PNode.name | _ => []) = [Cex.s "a", Cex.s "e"] ∧
+    (match parseFile .pinned (Cex.s "a{b c,d};e f") with | .error e => e.code | _ => 0) = -3 := by
+  decide +kernel
 
 example : Spec.specTyped 4 (Cex.s "1y2d03:04:05") = .value 31719845 ∧ Spec.specTyped 5 (Cex.s "1G2M3K4") = .value 1075842052 ∧
     Spec.specTyped 2 (Cex.s "0x1f") = .value 31 ∧ Spec.specTyped 1 (Cex.s "maybe") = .reject ∧
